@@ -96,4 +96,60 @@ CHECKS.update({
     },
 })
 
+def _c(level, ref, note, tech):
+    return {"level_text": level, "design_ref": ref, "level_note": note, "technique": tech}
+
+
+CHECKS.update({
+    "C01": _c("Every selection site of the resolver cascade (found by role; sites = first/find/max_by_key calls and element-"
+              "carrying early-exit loops over the per-name definition vector, extracted from MIR) must test visibility on the "
+              "selected element. The name-only imported-name stage of the pinned tree is a recorded known finding (replay). "
+              "Coincidence of the cascade with pytest for every layout is not decided.",
+              "DESIGN.md section 4 R5a, section 5 C01",
+              "Trusted: selection-site extraction (sel.py), closure field-touch sets. Undecided: cascade order, conftest walk, columns.",
+              "selection-site extraction from MIR + predicate field analysis"),
+    "C02": _c("The exclusion filter is invoked at every selection site of the cascade; every caller that resolves usages pairs "
+              "the excluding and non-excluding resolver under a `definition.name == usage name` test (memo lookups of "
+              "non-excluding resolutions count as non-excluding calls); the excluding filter compares whole records.",
+              "DESIGN.md section 4 R5b/R5c, section 5 C02",
+              "Trusted: selection sites, control-dependence via dominators and intra-iteration reachability. Undecided: columns, chain semantics.",
+              "control-dependence / pairing analysis of resolver callers on MIR"),
+    "C05": _c("Sibling resolvers (per-file view, outgoing-call resolution; found by the stages their selection sites cover) must use "
+              "the navigation cascade's selector class per stage and never select by name alone; the disagreements of the pinned "
+              "tree are recorded known findings with a replay. Agreement on every input is not decided.",
+              "DESIGN.md section 4 R5d/R5a, section 5 C05",
+              "Trusted: selection-site extraction and stage classification. Undecided: hover/inlay text, agreement on values.",
+              "sibling-implementation cross-check over selection sites"),
+    "C08": _c("Vectors filled in DashMap/hash iteration order must be sorted before they are returned (must-pass-through check); "
+              "first-match exits from hash iterations are in a reviewed table; order-sensitive selections over the per-name vector "
+              "must pin one file. Four unsorted outputs were repaired (fix: commits); the unpinned selections are recorded known "
+              "findings with replays. Ties and other nondeterminism channels are not decided.",
+              "DESIGN.md section 4 R4, section 5 C08",
+              "Trusted: iterator-type based source detection, sort must-pass-through on the CFG. Undecided: sort-key totality.",
+              "taint-style flow of unordered iteration to return + must-pass-through sort check; selection-site pinning"),
+    "C16": _c("Dependency definitions used by the cycle graph and the scope check must be selected with a visibility test (known "
+              "findings: both use .first()); result vectors must not be in hash order (repaired); the scope enum follows pytest's "
+              "order, parse/as_str agree, ScopeMismatch is built only under fixture.scope > dependency.scope.",
+              "DESIGN.md section 4 R5a/R4a/R8b, section 5 C16",
+              "Trusted: discriminant values from the type context; literal extraction. Undecided: cycle search soundness/completeness.",
+              "selection-site analysis + enum/literal table agreement + guard-direction check"),
+    "C18": _c("Every push into the per-file fixture view is guarded by the seen-set and followed by its insert; the textual fallback "
+              "recognises every decorator module the AST recogniser accepts (one gap repaired by a fix: commit).",
+              "DESIGN.md section 4 R11c/R8c, section 5 C18",
+              "Trusted: literal extraction from MIR constants. Undecided: context classification, offered-set algebra, sort priority.",
+              "dominance/post-dominance of dedup guards; literal-table agreement between sibling recognisers"),
+    "C19": _c("Codes constructed = codes gated = codes accepted by the configuration loader; each Diagnostic and collector sits on "
+              "the not-disabled edge of its own gate; did_open/did_change always continue from analysis to publishing for the "
+              "same document.",
+              "DESIGN.md section 4 R8a/R11a, section 5 C19",
+              "Trusted: literal flow through aggregates; post-dominance in coroutine MIR. Undecided: last-published equality over histories.",
+              "literal-set agreement + gate dominance + analysis=>publish post-dominance"),
+    "C20": _c("exit(0)/exit(1) are controlled by is_empty() of the unused list, both formats iterate it; the json branch prints only "
+              "serializer output or JSON literals (format templates decoded from MIR constants); CLI vectors from unordered "
+              "iteration are sorted; the CLI usage counter pairs the resolvers like the server.",
+              "DESIGN.md section 4 R11b/R11d/R4a/R5c, section 5 C20",
+              "Trusted: constant decoding of format templates, dominators. Undecided: count equality with the server, byte-identical output.",
+              "guard dominance on exit calls + print-content analysis + reuse of R4a/R5c"),
+})
+
 NOT_APPLICABLE = {p: _UNDER_CONSTRUCTION for p in ["C%02d" % i for i in range(1, 21)]}
